@@ -298,9 +298,124 @@ class Obligation:
 Z3_TIMEOUT_MS = 10000
 
 
+_HEAVY_KINDS = None
+_heavy_cache = {}
+
+
+def is_heavy(t):
+    """does the term contain sequence concatenation / extraction (expensive for *sat* queries)?"""
+    global _HEAVY_KINDS
+    if _HEAVY_KINDS is None:
+        _HEAVY_KINDS = {z3.Z3_OP_SEQ_CONCAT, z3.Z3_OP_SEQ_EXTRACT, z3.Z3_OP_SEQ_AT, z3.Z3_OP_SEQ_REPLACE}
+    k = t.get_id()
+    if k in _heavy_cache:
+        return _heavy_cache[k]
+    seen = set()
+    stack = [t]
+    res = False
+    while stack:
+        x = stack.pop()
+        i = x.get_id()
+        if i in seen:
+            continue
+        seen.add(i)
+        if z3.is_quantifier(x):
+            stack.append(x.body())
+            continue
+        if z3.is_app(x):
+            if x.decl().kind() in _HEAVY_KINDS:
+                res = True
+                break
+            stack.extend(x.children())
+    _heavy_cache[k] = res
+    return res
+
+
+_len_vars = {}
+_abs_cache = {}
+_var_count = [0]
+
+
+def _var_for(kind, term):
+    """one abstraction variable per distinct (live) term"""
+    key = (kind, term.get_id())
+    hit = _len_vars.get(key)
+    if hit is not None and hit[0].eq(term):
+        return hit[1]
+    _var_count[0] += 1
+    v = z3.Int(f"{kind}#{_var_count[0]}")
+    _len_vars[key] = (term, v)
+    return v
+
+
+def _abstract(t):
+    """replace every Length(<seq term>) by an integer variable >= 0 (one per distinct argument); returns
+    (term, side conditions) or None when sequence-sorted material remains elsewhere in the term"""
+    k = t.get_id()
+    hit = _abs_cache.get(k)
+    if hit is not None and hit[0].eq(t):       # ids are only unique among live terms: keep the term alive
+        return hit[1]
+    subs = []
+    side = []
+    seen = set()
+    stack = [t]
+    ok = True
+    while stack:
+        x = stack.pop()
+        i = x.get_id()
+        if i in seen:
+            continue
+        seen.add(i)
+        if z3.is_quantifier(x):
+            ok = False
+            break
+        if z3.is_app(x):
+            if x.decl().kind() == z3.Z3_OP_SEQ_LENGTH:
+                a = x.arg(0)
+                v = _var_for("len", a)
+                subs.append((x, v))
+                side.append(v >= 0)
+                continue
+            if z3.is_int(x) and x.num_args() and any(z3.is_seq(c) for c in x.children()):
+                # an integer-valued function of sequences (os2ip(...)): one variable per distinct term
+                v = _var_for("ia", x)
+                subs.append((x, v))
+                continue
+            if z3.is_seq(x) or (x.num_args() and any(z3.is_seq(c) for c in x.children())):
+                ok = False
+                break
+            stack.extend(x.children())
+    res = (z3.substitute(t, *subs) if subs else t, side) if ok else None
+    _abs_cache[k] = (t, res)
+    return res
+
+
+def light(assumptions, goal):
+    """context for *deciding a branch* on `goal`.  Abstraction is sound there (an undecided branch simply
+    forks): lengths of sequences become non-negative integer variables and hypotheses that still talk
+    about sequence values are dropped, so the query is pure integer arithmetic.  (z3's sequence solver
+    needs a minute to build a *model* with Length(s) > 255, and branch decisions are sat-flavoured.)"""
+    g = _abstract(goal)
+    if g is None:
+        return assumptions, goal
+    out = []
+    for a in assumptions:
+        r = _abstract(a)
+        if r is not None:
+            out.append(r[0])
+            out.extend(r[1])
+    out.extend(g[1])
+    return out, g[0]
+
+
+RLIMIT_PER_MS = int(__import__("os").environ.get("PYVC_RLIMIT_PER_MS", "4000"))
+
+
 def z3_check(assumptions, extra=None, timeout_ms=None):
     s = z3.Solver()
     s.set("timeout", timeout_ms or Z3_TIMEOUT_MS)
+    # the sequence theory does not always honour `timeout`; the resource limit is deterministic
+    s.set("rlimit", (timeout_ms or Z3_TIMEOUT_MS) * RLIMIT_PER_MS)
     for a in assumptions:
         s.add(a)
     if extra is not None:
@@ -369,10 +484,11 @@ class Path:
                 return True
             if z3.is_false(t):
                 return False
-            r1, _ = z3_check(self.zc, t, 3000)
+            ctxt, tl = light(self.zc, t)
+            r1, _ = z3_check(ctxt, tl, 3000)
             if r1 == z3.unsat:
                 return False
-            r2, _ = z3_check(self.zc, z3.Not(t), 3000)
+            r2, _ = z3_check(ctxt, z3.Not(tl), 3000)
             if r2 == z3.unsat:
                 return True
             k = self._choose(2, label or "zcase")
@@ -468,6 +584,13 @@ def smt_prove(assumptions, goal, timeout_ms=None):
     goals = _conjuncts(goal)
     worst = ("proved", "", None)
     for g in goals:
+        # first the sequence-free abstraction (sound for `unsat`): most obligations are arithmetic over
+        # lengths and os2ip values and need no sequence reasoning at all
+        ctxt, gl = light(assumptions, g)
+        if ctxt is not assumptions:
+            r0, _ = z3_check(ctxt, z3.Not(gl), 5000)
+            if r0 == z3.unsat:
+                continue
         r, s = z3_check(assumptions, z3.Not(g), timeout_ms)
         if r == z3.unsat:
             continue
